@@ -411,8 +411,15 @@ def make_adapters_from_one_specification(
         parameters = search_parameters.copy()
         parameters.update(parse_search_parameters(parameters_spec))
         for name, spec in read_adapters_fasta(path):
+            # The anchoring suffix belongs to the sequence, not to search
+            # parameters that may follow it in the FASTA record
+            sequence, separator, record_parameters = spec.partition(";")
             yield make_adapter(
-                anchoring_prefix + spec + anchoring_suffix,
+                anchoring_prefix
+                + sequence
+                + anchoring_suffix
+                + separator
+                + record_parameters,
                 adapter_type,
                 parameters,
                 name=name,
